@@ -29,7 +29,7 @@ func genC12(coop bool) func(t *rapid.T) c02Case {
 		}
 		c.Evs = rapid.SliceOfN(genC02Ev(0), 3, 40).Draw(t, "evs")
 		if coop {
-			c.Yields = rapid.SliceOfN(rapid.SampledFrom([]uint8{0, 0, 1, 1, 2, 3}), 0, 40).Draw(t, "yields")
+			c.Yields = yieldList(rapid.SliceOfN(rapid.SampledFrom([]uint8{0, 0, 1, 1, 2, 3}), 0, 40).Draw(t, "yields"))
 		}
 		return c
 	}
